@@ -338,3 +338,145 @@ Proof.
   rewrite (Zfloor_imp 1) by (simpl; lra).
   apply Rle_trans with (bpow radix2 3); [simpl; lra|apply bpow_le; lia].
 Qed.
+
+(** ** 4. Subtraction: [fl(fl(fl(qa - qb) + ra) - rb)] is within three units in the last place of
+    max(1, |exact difference|). *)
+Lemma ulp64_small : forall x e, (-1022 <= e)%Z ->
+  Rabs x < bpow radix2 (e + 1) -> ulp64 x <= bpow radix2 (e - 52).
+Proof.
+  intros x e He H. destruct (Req_dec x 0) as [Z|NZ].
+  - rewrite Z, ulp_FLT_0 by (unfold Prec_gt_0; lia). apply bpow_le. lia.
+  - rewrite ulp_neq_0 by exact NZ. apply bpow_le. unfold cexp, FLT_exp.
+    generalize (mag_le_bpow radix2 x (e + 1) NZ H). lia.
+Qed.
+
+Lemma RN_abs_le_bpow : forall x e, (-1074 <= e)%Z ->
+  Rabs x <= bpow radix2 e -> Rabs (RN x) <= bpow radix2 e.
+Proof.
+  intros x e He H. apply abs_round_le_generic; auto with typeclass_instances.
+  apply generic_format_bpow. unfold FLT_exp. lia.
+Qed.
+
+Lemma sub_error : forall a b : time,
+  normalised a -> normalised b ->
+  Rabs (B2R (tq a)) <= bpow radix2 1020 -> Rabs (B2R (tq b)) <= bpow radix2 1020 ->
+  Rabs (B2R (time_sub a b) - (value a - value b)) <=
+    3 * ulp64 (Rmax 1 (Rabs (value a - value b))).
+Proof.
+  intros a b [Fqa [na Hna] Fra Rra] [Fqb [nb Hnb] Frb Rrb] Ba Bb.
+  set (v := value a - value b).
+  set (M := Rmax 1 (Rabs v)).
+  assert (M1 : 1 <= M) by apply Rmax_l.
+  assert (Mv : Rabs v <= M) by apply Rmax_r.
+  assert (Mne : M <> 0) by lra.
+  assert (MA : Rabs M = M) by (apply Rabs_pos_eq; lra).
+  set (e := (mag radix2 M : Z)).
+  generalize (bpow_mag_gt radix2 M) (bpow_mag_le radix2 M Mne). fold e. rewrite MA. intros Mlt Mge.
+  set (D := B2R (tq a) - B2R (tq b)).
+  assert (Dv : D = v - (B2R (tr a) - B2R (tr b))) by (unfold D, v, value; ring).
+  assert (DM : Rabs D < M + 1).
+  { rewrite Dv. apply Rle_lt_trans with (1 := Rabs_triang _ _). rewrite Rabs_Ropp.
+    assert (Rabs (B2R (tr a) - B2R (tr b)) < 1) by (apply Rabs_lt; lra). lra. }
+  assert (E1 : (1 <= e)%Z).
+  { assert (bpow radix2 0 < bpow radix2 e) by (simpl; lra). apply lt_bpow in H. lia. }
+  assert (D1020 : Rabs D <= bpow radix2 1021).
+  { unfold D. apply Rle_trans with (1 := Rabs_triang _ _). rewrite Rabs_Ropp.
+    change (bpow radix2 1021) with (bpow radix2 (1020 + 1)). rewrite bpow_plus.
+    change (bpow radix2 1) with 2. lra. }
+  assert (E2 : (e <= 1022)%Z).
+  { assert (Mb : M < bpow radix2 1022).
+    { assert (B1 : 1 < bpow radix2 1021) by (change 1 with (bpow radix2 0); apply bpow_lt; lia).
+      assert (B2' : bpow radix2 1022 = 2 * bpow radix2 1021).
+      { change (bpow radix2 1022) with (bpow radix2 (1021 + 1)). rewrite bpow_plus.
+        change (bpow radix2 1) with 2. ring. }
+      assert (Rabs v < bpow radix2 1022).
+      { replace v with (D + (B2R (tr a) - B2R (tr b))) by (rewrite Dv; ring).
+        apply Rle_lt_trans with (1 := Rabs_triang _ _).
+        assert (Rabs (B2R (tr a) - B2R (tr b)) < 1) by (apply Rabs_lt; lra). lra. }
+      unfold M. apply Rmax_lub_lt; lra. }
+    assert (bpow radix2 (e - 1) < bpow radix2 1022) by lra. apply lt_bpow in H. lia. }
+  set (P := bpow radix2 e) in *.
+  assert (P2 : 2 <= P).
+  { unfold P. change 2 with (bpow radix2 1). apply bpow_le. lia. }
+  assert (PP : bpow radix2 (e + 1) = 2 * P).
+  { rewrite bpow_plus. change (bpow radix2 1) with 2. unfold P. ring. }
+  (* D is an integer of magnitude < P + 1, hence <= P *)
+  assert (DP : Rabs D <= P).
+  { unfold D. rewrite Hna, Hnb, <- minus_IZR, <- abs_IZR.
+    unfold P. rewrite <- IZR_Zpower by lia. apply IZR_le.
+    assert (IZR (Z.abs (na - nb)) < IZR (radix2 ^ e + 1)).
+    { rewrite plus_IZR, IZR_Zpower by lia. fold P. rewrite abs_IZR, minus_IZR, <- Hna, <- Hnb.
+      fold D. simpl (IZR 1). lra. }
+    apply lt_IZR in H. lia. }
+  (* first operation *)
+  set (D1 := RN D).
+  assert (D1P : Rabs D1 <= P) by (apply RN_abs_le_bpow; [lia|exact DP]).
+  assert (Pmax : 2 * P < bpow radix2 1024).
+  { rewrite <- PP. apply bpow_lt. lia. }
+  destruct (fsub_spec (tq a) (tq b) Fqa Fqb) as [V1 F1]; [fold D; fold D1; lra|].
+  fold D in V1. fold D1 in V1.
+  (* second operation *)
+  set (x2 := D1 + B2R (tr a)).
+  apply Rabs_le_inv in D1P.
+  assert (X2 : - P <= x2 < P + 1) by (unfold x2; lra).
+  assert (X2abs : Rabs x2 < bpow radix2 (e + 1)) by (rewrite PP; apply Rabs_lt; lra).
+  set (D2 := RN x2).
+  assert (F15 : fmt64 (3 * bpow radix2 (e - 1))).
+  { apply generic_format_FLT. exists (Float radix2 3 (e - 1)).
+    - unfold F2R; simpl. reflexivity.
+    - simpl. lia.
+    - simpl. lia. }
+  assert (P15 : 3 * bpow radix2 (e - 1) = 3 / 2 * P).
+  { unfold P. replace e with (e - 1 + 1)%Z at 2 by ring. rewrite bpow_plus.
+    change (bpow radix2 1) with 2. field. }
+  assert (FP : fmt64 P) by (apply generic_format_bpow; unfold FLT_exp; lia).
+  assert (D2b : - P <= D2 <= 3 / 2 * P).
+  { unfold D2. split.
+    - rewrite <- (RN_id (- P)) by (apply generic_format_opp; exact FP). apply RN_le. lra.
+    - rewrite <- P15. rewrite <- (RN_id _ F15). apply RN_le. rewrite P15. lra. }
+  destruct (fadd_spec _ _ F1 Fra) as [V2 F2].
+  { rewrite V1. fold x2. fold D2. apply Rle_lt_trans with (2 := Pmax). apply Rabs_le. lra. }
+  rewrite V1 in V2. fold x2 in V2. fold D2 in V2.
+  (* third operation *)
+  set (x3 := D2 - B2R (tr b)).
+  assert (X3 : - P - 1 < x3 <= 3 / 2 * P) by (unfold x3; lra).
+  assert (X3abs : Rabs x3 < bpow radix2 (e + 1)) by (rewrite PP; apply Rabs_lt; lra).
+  destruct (fsub_spec _ _ F2 Frb) as [V3 F3].
+  { rewrite V2. fold x3. apply Rle_lt_trans with (bpow radix2 (e + 1)).
+    - apply RN_abs_le_bpow; [lia|lra].
+    - apply bpow_lt. lia. }
+  rewrite V2 in V3. fold x3 in V3.
+  (* error terms *)
+  assert (UM : ulp64 M = bpow radix2 (e - 53)).
+  { rewrite ulp_neq_0 by exact Mne. unfold cexp, FLT_exp. fold e. f_equal. lia. }
+  assert (U2 : bpow radix2 (e - 52) = 2 * ulp64 M).
+  { rewrite UM. replace (e - 52)%Z with (e - 53 + 1)%Z by ring. rewrite bpow_plus.
+    change (bpow radix2 1) with 2. ring. }
+  assert (Dabs : Rabs D < bpow radix2 (e + 1)) by (rewrite PP; lra).
+  assert (Er1 : Rabs (D1 - D) <= ulp64 M).
+  { apply Rle_trans with (1 := RN_err D).
+    generalize (ulp64_small D e ltac:(lia) Dabs). lra. }
+  assert (Er2 : Rabs (D2 - x2) <= ulp64 M).
+  { apply Rle_trans with (1 := RN_err x2).
+    generalize (ulp64_small x2 e ltac:(lia) X2abs). lra. }
+  assert (Er3 : Rabs (RN x3 - x3) <= ulp64 M).
+  { apply Rle_trans with (1 := RN_err x3).
+    generalize (ulp64_small x3 e ltac:(lia) X3abs). lra. }
+  unfold time_sub. rewrite V3. fold v.
+  replace (RN x3 - v) with ((RN x3 - x3) + (D2 - x2) + (D1 - D))
+    by (unfold x3, x2; rewrite Dv; ring).
+  apply Rle_trans with (1 := Rabs_triang _ _).
+  apply Rle_trans with (Rabs (RN x3 - x3) + Rabs (D2 - x2) + Rabs (D1 - D)).
+  { apply Rplus_le_compat_r. apply Rabs_triang. }
+  fold M. lra.
+Qed.
+
+Lemma sample_sub_hyps :
+  normalised sample_a /\ normalised sample_b /\
+  Rabs (B2R (tq sample_a)) <= bpow radix2 1020 /\ Rabs (B2R (tq sample_b)) <= bpow radix2 1020.
+Proof.
+  split; [exact sample_a_normalised|]. split; [exact sample_b_normalised|].
+  assert (3 <= bpow radix2 1020).
+  { apply Rle_trans with (bpow radix2 2); [simpl; lra|apply bpow_le; lia]. }
+  unfold sample_a, sample_b; cbn [tq]. rewrite f_3_R, Rabs_pos_eq by lra. split; assumption.
+Qed.
